@@ -134,6 +134,112 @@ MON_SUB (sub_h2f, "half_to_float_all_configs", g_cfg.size (), g_cfg.size ())
     .noscale ()
     .over ("all 2^16 half patterns x every compiled configuration (index = configuration)");
 
+// ----------------------------------------------------------------- independence of the caller's floating-point environment
+// The conversions are pure functions of their input bits: the software paths are integer-only and the F16C path asks the
+// instruction for round-to-nearest explicitly.  A hostile caller therefore changes the thread's rounding direction and the
+// MXCSR flush-to-zero / denormals-are-zero bits around each call; every configuration must still return what the reference
+// configuration returns in the default environment.
+#include <fenv.h>
+#include <xmmintrin.h>
+static const int   k_modes[5][2] = {{FE_DOWNWARD, 0}, {FE_UPWARD, 0}, {FE_TOWARDZERO, 0}, {FE_TONEAREST, 1}, {FE_UPWARD, 1}};
+static const char* k_mode_names[5] = {"FE_DOWNWARD", "FE_UPWARD", "FE_TOWARDZERO", "FE_TONEAREST+FTZ+DAZ", "FE_UPWARD+FTZ+DAZ"};
+
+struct EnvGuard
+{
+    int          old_round;
+    unsigned int old_csr;
+    EnvGuard (int mode) : old_round (fegetround ()), old_csr (_mm_getcsr ())
+    {
+        fesetround (k_modes[mode][0]);
+        if (k_modes[mode][1]) _mm_setcsr (_mm_getcsr () | 0x8040u);
+    }
+    ~EnvGuard () { _mm_setcsr (old_csr); fesetround (old_round); }
+};
+
+static void
+sub_fenv (Ctx& c, uint64_t b, uint64_t e)
+{
+    static thread_local std::vector<uint16_t> ref, got;
+    const uint32_t n = 4096;
+    ref.resize (n); got.resize (n);
+    for (uint64_t idx = b; idx < e; ++idx)
+    {
+        int      mode = (int) (idx % 5);
+        uint64_t blk = idx / 5;
+        Rng      r = c.rng (blk);
+        // block position: boundary neighbourhoods (ties / thresholds of every binade that maps into half range) or random
+        uint32_t start;
+        if (blk % 4 == 0) start = (uint32_t) (0x33000000u + (r.u64 () % 0x14800000u)) & ~0xfffu; // 2^-25 .. 65536: where rounding matters
+        else if (blk % 4 == 1) start = ((uint32_t) (0x33000000u + (r.u64 () % 0x14800000u)) & ~0xfffu) | 0x80000000u;
+        else start = r.u32 () & ~0xfffu;
+        g_cfg[0].f2h (start, n, ref.data ()); // default environment
+        for (size_t k = 0; k < g_cfg.size (); ++k)
+        {
+            const Cfg& cf = g_cfg[k];
+            if (cf.f16c && !g_cpu_f16c) { c.cls ("f16c_skipped_cpu_lacks_f16c", n); continue; }
+            {
+                EnvGuard g (mode);
+                cf.f2h (start, n, got.data ());
+            }
+            uint64_t bad = 0; uint32_t first = 0;
+            for (uint32_t i = 0; i < n; ++i)
+            {
+                if (got[i] == ref[i]) continue;
+                if (cf.f16c)
+                {
+                    bool rn = (ref[i] & 0x7c00) == 0x7c00 && (ref[i] & 0x3ff);
+                    bool gn = (got[i] & 0x7c00) == 0x7c00 && (got[i] & 0x3ff);
+                    if (rn && gn && ((ref[i] ^ got[i]) & 0x8000) == 0) continue;
+                }
+                if (!bad++) first = start + i;
+            }
+            c.eval (n);
+            c.cls (std::string ("env_") + k_mode_names[mode], n);
+            if (cf.f16c) c.cls ("f16c_under_changed_environment", n);
+            if (bad)
+                c.fail (std::string ("f2h_fenv:") + cf.name + ":" + k_mode_names[mode], idx, [&] {
+                    uint16_t rr, gg; g_cfg[0].f2h (first, 1, &rr);
+                    { EnvGuard g (mode); cf.f2h (first, 1, &gg); }
+                    return Obj ().kv ("config", cf.name).kv ("environment", k_mode_names[mode]).kv ("float", hex32 (first)).kv ("default_env_ref", hex16 (rr)).kv ("got", hex16 (gg)).kv ("mismatches_in_block", (unsigned long long) bad).str ();
+                });
+        }
+        // half -> float of all patterns, once per mode
+        if (blk == 0)
+        {
+            std::vector<uint32_t> r32 (65536), g32 (65536);
+            g_cfg[0].h2f (r32.data ());
+            for (size_t k = 0; k < g_cfg.size (); ++k)
+            {
+                const Cfg& cf = g_cfg[k];
+                if (cf.f16c && !g_cpu_f16c) continue;
+                { EnvGuard g (mode); cf.h2f (g32.data ()); }
+                uint64_t bad = 0; uint32_t first = 0;
+                for (uint32_t i = 0; i < 65536; ++i)
+                {
+                    if (g32[i] == r32[i]) continue;
+                    if (cf.f16c)
+                    {
+                        bool rn = (r32[i] & 0x7fffffffu) > 0x7f800000u, gn = (g32[i] & 0x7fffffffu) > 0x7f800000u;
+                        if (rn && gn && ((r32[i] ^ g32[i]) >> 31) == 0) continue;
+                    }
+                    if (!bad++) first = i;
+                }
+                c.eval (65536);
+                if (bad)
+                    c.fail (std::string ("h2f_fenv:") + cf.name + ":" + k_mode_names[mode], idx, [&] { return Obj ().kv ("config", cf.name).kv ("environment", k_mode_names[mode]).kv ("half", hex16 ((uint16_t) first)).kv ("default_env_ref", hex32 (r32[first])).kv ("got", hex32 (g32[first])).kv ("mismatches", (unsigned long long) bad).str (); });
+            }
+        }
+        c.nontrivial (hash_combine (start, (uint64_t) mode));
+        if (idx % 9973 == 0) c.sample (k_mode_names[mode], [&] { return Obj ().kv ("environment", k_mode_names[mode]).kv ("first_float", hex32 (start)).kv ("floats", (int) n).kv ("configs", (int) g_cfg.size ()).str (); });
+    }
+}
+MON_SUB (sub_fenv, "fp_environment_independence", 5 * 2048, 5 * 65536)
+    .req ({"env_FE_DOWNWARD", "env_FE_UPWARD", "env_FE_TOWARDZERO", "env_FE_TONEAREST+FTZ+DAZ", "env_FE_UPWARD+FTZ+DAZ"})
+    .chunked (16)
+    .over ("blocks of 4096 consecutive float patterns (half of them inside [2^-25, 65536) where rounding matters, both signs) and all 2^16 half patterns, "
+           "converted by every configuration while the calling thread runs with a non-default rounding direction and/or FTZ+DAZ, compared with the "
+           "reference configuration in the default environment");
+
 // ----------------------------------------------------------------- the shipped table is what the generator prints
 static bool
 parse_entries (const char* path, std::vector<uint32_t>& out)
